@@ -26,7 +26,7 @@ TRUSTED = [
     'is checked by the oracle under the scheduler and on real threads, but has no LTS of its own: the model covers one queue level',
 ]
 ASSUMPTIONS = ['ignore_error and timeout are not set (piter_multiplex never sets them)',
-               'liveness (every schedule reaches a final configuration) is inherited as a hypothesis in C13_threads_end; '
+               'liveness (every schedule reaches a final configuration) is inherited as a hypothesis in C13_threads_end_partial; '
                'it is checked on the real code by the scheduler (deadlock = no enabled thread) on every run']
 RULE = ('entry points pmap / piter_fn / piter / piter_multiplex / MultiplexIterator x 1-3 inputs of 0-3 (quick) / 0-4 (thorough) '
         'elements x parallelism 1-3 x buffer sizes {0,1,2,3} (3*P for MultiplexIterator) x pool max_workers {default,1,2,3} x '
